@@ -479,3 +479,82 @@ Proof.
     assert (E : (r - a) * peval (pquot p a) r == 0) by lra.
     apply Qmult_integral in E as [E|E]; [exfalso; apply Ha; lra | exact E].
 Qed.
+
+(* ====================================================================== *)
+(* PolynomialRegression reproduces polynomials                             *)
+(* ====================================================================== *)
+Lemma SSR_nonneg n cols w y beta : length y = n -> (forall i, (i < n)%nat -> 0 <= vn w i) -> 0 <= SSR cols w y beta.
+Proof.
+  intros Hy Hw. unfold SSR. rewrite Hy. apply sum_n_nonneg. intros i Hi.
+  apply Qmult_le_0_compat; [now apply Hw|]. generalize (resid_at cols y beta i). intros q. nra.
+Qed.
+
+(* enough distinct abscissae of positive weight: a list of d+1 indices *)
+Definition enough_points (d : nat) (xs wl : list Q) : Prop :=
+  exists idx : list nat, length idx = S d /\
+    Forall (fun i => (i < length xs)%nat /\ 0 < vn wl i) idx /\ distinctQ (map (vn xs) idx).
+
+Lemma seq_map_vn (f : nat -> Q) m i : (i < m)%nat -> vn (map f (seq 0 m)) i = f i.
+Proof. intros H. rewrite (vn_map _ _ O) by (now rewrite seq_length). now rewrite seq_nth. Qed.
+
+(* a least-squares polynomial of degree d that fits a polynomial of degree <= d exactly on d+1
+   distinct positive-weight abscissae IS that polynomial; stated for any minimiser *)
+Lemma minimiser_reproduces d xs ys wl p beta :
+  length ys = length xs -> length wl = length xs -> (forall i, (i < length xs)%nat -> 0 <= vn wl i) ->
+  length p = S d -> length beta = S d ->
+  (forall i, (i < length xs)%nat -> vn ys i == poly_eval p (vn xs i)) ->
+  SSR (monomials d xs) wl ys beta <= SSR (monomials d xs) wl ys p ->
+  enough_points d xs wl ->
+  Forall2 Qeq beta p.
+Proof.
+  intros Hy Hwl Hw Hp Hb Hdata Hmin (idx & Hil & Hidx & Hdist).
+  set (cols := monomials d xs) in *. set (n := length xs) in *.
+  assert (Rp : forall i, (i < n)%nat -> resid_at cols ys p i == 0).
+  { intros i Hi. unfold resid_at, cols. rewrite monomials_fit by assumption. rewrite Hdata by exact Hi. ring. }
+  assert (Sp : SSR cols wl ys p == 0).
+  { unfold SSR. rewrite Hy. rewrite (sum_n_ext _ (fun _ => 0)); [apply sum_n_zero|].
+    intros i Hi. rewrite Rp by exact Hi. ring. }
+  assert (Sb : SSR cols wl ys beta == 0).
+  { pose proof (SSR_nonneg n cols wl ys beta Hy Hw). lra. }
+  assert (Rb : forall i, (i < n)%nat -> 0 < vn wl i -> poly_eval beta (vn xs i) == poly_eval p (vn xs i)).
+  { intros i Hi Hpos. unfold SSR in Sb. rewrite Hy in Sb.
+    assert (E : vn wl i * (resid_at cols ys beta i * resid_at cols ys beta i) == 0).
+    { apply (sum_n_zero_terms (fun i => vn wl i * (resid_at cols ys beta i * resid_at cols ys beta i)) n); [|exact Sb|exact Hi].
+      intros l Hl. apply Qmult_le_0_compat; [now apply Hw|]. generalize (resid_at cols ys beta l). intros q. nra. }
+    apply Qmult_integral in E as [E|E]; [lra|].
+    assert (E' : resid_at cols ys beta i == 0) by (apply Qmult_integral in E as [E|E]; exact E).
+    unfold resid_at, cols in E'. rewrite monomials_fit in E' by assumption. rewrite Hdata in E' by exact Hi. lra. }
+  set (delta := map (fun j => vn beta j - vn p j) (seq 0 (S d))).
+  assert (Hdl : length delta = S d) by (unfold delta; now rewrite map_length, seq_length).
+  assert (Ed : forall x, peval delta x == poly_eval beta x - poly_eval p x).
+  { intros x. rewrite <- poly_eval_peval. unfold poly_eval. rewrite Hdl, Hb, Hp.
+    setoid_replace (sum_n (fun i => vn beta i * pw x i) (S d) - sum_n (fun i => vn p i * pw x i) (S d))
+      with (sum_n (fun i => vn beta i * pw x i) (S d) + sum_n (fun i => (-1) * (vn p i * pw x i)) (S d))
+      by (rewrite sum_n_scal; ring).
+    rewrite <- sum_n_add. apply sum_n_ext. intros j Hj. unfold delta. rewrite seq_map_vn by exact Hj. ring. }
+  assert (Z : Forall (fun c => c == 0) delta).
+  { apply (poly_roots_zero (S d) delta (map (vn xs) idx)); [lia | now rewrite map_length | exact Hdist |].
+    rewrite Forall_forall. intros r Hr. apply in_map_iff in Hr as (i & <- & Hin).
+    rewrite Forall_forall in Hidx. destruct (Hidx i Hin) as [Hi Hpos]. rewrite Ed, (Rb i Hi Hpos). ring. }
+  apply Forall2_Qeq_vn. split; [now rewrite Hb, Hp|]. intros j Hj. rewrite Hb in Hj.
+  rewrite Forall_forall in Z. assert (E : vn delta j == 0).
+  { apply Z. unfold vn. apply nth_In. now rewrite Hdl. }
+  unfold delta in E. rewrite seq_map_vn in E by exact Hj. lra.
+Qed.
+
+(* PolynomialRegression of degree d on data generated by a polynomial p of degree <= d (d+1 coefficients),
+   with at least d+1 distinct abscissae of positive weight, returns p *)
+Theorem polyreg_reproduces xs ys w d p beta :
+  polyreg xs ys w (Z.of_nat d) = FOk beta -> weights_nonneg w -> length p = S d ->
+  (forall i, (i < length xs)%nat -> vn ys i == poly_eval p (vn xs i)) ->
+  enough_points d xs (weights_or_ones (length xs) w) ->
+  Forall2 Qeq beta p.
+Proof.
+  intros H Hw Hp Hdata He. rewrite polyreg_is_lls_on_monomials in H.
+  pose proof (lls_ok_inv _ _ _ _ _ H) as (Hy & Hwl & _).
+  pose proof (lls_minimises _ _ _ _ _ H (monomials_cols d xs) Hw) as (Hb & _ & Hmin).
+  rewrite monomials_len in Hb, Hmin.
+  apply (minimiser_reproduces d xs ys (weights_or_ones (length xs) w) p beta); auto.
+  intros i Hi. apply Forall_vn_nonneg; [|now rewrite Hwl].
+  destruct w; [exact Hw | apply Forall_repeat_1].
+Qed.
